@@ -538,6 +538,18 @@ pub fn scenarios(seed: u64, dir: &PathBuf) -> Vec<Scenario> {
             out.push(Scenario { pending: Pending::Mine(vec![vec![]]), name: "add-vs-purge".into(), prep, api: vec![vec![COp::Add { ver: v, sig }], vec![COp::GetSub { sig: gs }]], poll: true, connects: 1, desc: "add_appointment / get_subscription_info concurrent with the block that purges the user".into() });
         }
     }
+    // S5b: renewal concurrent with the block that purges the user (with an appointment attached)
+    {
+        let mut b = Builder::new(seed, next_id(), dir, 5, 3, 0);
+        b.push(Op::Register { user: 0 });
+        b.push(Op::Register { user: 1 });
+        let v = b.version(1, BlobKind::Valid, 300);
+        b.add(0, v);
+        b.mine_poll(vec![vec![], vec![]]);
+        if let Ok(prep) = b.freeze() {
+            out.push(Scenario { pending: Pending::Mine(vec![vec![]]), name: "renew-vs-purge".into(), prep, api: vec![vec![COp::Register { user: 0 }]], poll: true, connects: 1, desc: "register (renewal) concurrent with the block that purges that very user".into() });
+        }
+    }
     // S6: read concurrent with the dispute block
     {
         let mut b = Builder::new(seed, next_id(), dir, 5, 500, 6);
